@@ -863,9 +863,13 @@ class PSFPhotometry(ModelImageMixin):
 
         # add error columns for fixed params; errors are set to NaN
         nsources = len(self.init_params)
+        flux_errcol = err_param_map[self._param_maps['model']['flux']]
         for colname in colnames:
             if colname not in table.colnames:
-                table[colname] = [np.nan] * nsources
+                value = np.array([np.nan] * nsources)
+                if self.data_unit is not None and colname == flux_errcol:
+                    value <<= self.data_unit  # add the flux units
+                table[colname] = value
 
         # sort column names
         return table[colnames]
